@@ -245,9 +245,12 @@ def apply_electric_inputs(sysm, objs, plant, inp):
     if dt is None:
         sysm.set_time_interval(np.full(n, 60.0), IntegrationMethod.sum_with_time)
     else:
-        sysm.set_time_interval(np.array([float(x) for x in dt], dtype=float), IntegrationMethod.sum_with_time)
+        # inp["int_dt"]: whole-second intervals handed over as an integer array
+        sysm.set_time_interval(np.array([int(x) for x in dt], dtype=int) if inp.get("int_dt") and all(x == int(x) for x in dt)
+                               else np.array([float(x) for x in dt], dtype=float), IntegrationMethod.sum_with_time)
     if plant["breakers"] and inp.get("sts") is not None:
-        sysm.set_bus_tie_status_all(np.array(inp["sts"], dtype=bool).reshape(n, len(plant["breakers"])))
+        # the front ends pass numeric 0/1 matrices (np.ones(...)); inp["numeric_sts"] does the same
+        sysm.set_bus_tie_status_all(np.array(inp["sts"], dtype=float if inp.get("numeric_sts") else bool).reshape(n, len(plant["breakers"])))
     for d, o, ci in zip(plant["comps"], objs, inp["comps"]):
         k = kind_of(d["cls"])
         if k == "Consumer":
@@ -266,6 +269,24 @@ def apply_electric_inputs(sysm, objs, plant, inp):
                     o.set_power_input_from_output(arr)
                 else:
                     o.power_input = arr
+    if inp.get("matrix_api"):
+        set_status_through_matrix_api(sysm, objs, plant, inp)
+
+
+def set_status_through_matrix_api(sysm, objs, plant, inp):
+    """the statuses (and sharing modes) set once more, this time through the per-switchboard matrix setters
+    ([N x n]: one column per component of the power type, in the switchboard's own order)"""
+    from feems.types_for_feems import TypePower
+    by_obj = {id(o): ci for o, ci in zip(objs, inp["comps"])}
+    for sid, swb in sysm.switchboards.items():
+        for pt in (TypePower.POWER_SOURCE, TypePower.PTI_PTO, TypePower.ENERGY_STORAGE):
+            comps = swb.component_by_power_type[pt.value]
+            if not comps:
+                continue
+            st = np.array([by_obj[id(c)]["status"] for c in comps], dtype=bool).T
+            lsm = np.array([[float(x) for x in by_obj[id(c)]["lsm"]] for c in comps], dtype=float).T
+            sysm.set_status_by_switchboard_id_power_type(sid, pt, st)
+            sysm.set_load_sharing_mode_power_sources_by_switchboard_id_power_type(sid, pt, lsm)
 
 
 # ---------------------------------------------------------------------------------------------
@@ -449,6 +470,8 @@ def apply_mechanical_inputs(sysm, objs, plant, inp):
             sysm.set_full_pti_mode_for_name_shaft_line_id(d["name"], d["line"], np.array(ci["full"], dtype=bool))
         else:
             arr = np.array([float(x) for x in ci["out"]], dtype=float)
+            if inp.get("int_loads") and all(x == int(x) for x in ci["out"]):
+                arr = np.array([int(x) for x in ci["out"]], dtype=int)       # whole-kW loads as an integer array
             if ci["set"] == "by_output":
                 sysm.set_power_consumer_load_by_power_output_for_given_name_shaft_line_id(d["name"], d["line"], arr)
             else:
